@@ -577,10 +577,40 @@ def check_accumulator_dtype(ctx, quals, rule="DTYPE"):
                     root = root.value
                 if isinstance(a, _ast.Attribute) and a.attr == "data" and isinstance(root, _ast.Name) and root.id in params:
                     out.append(c)
+        # results / working arrays cast to a dtype that is computed from the image's dtype (np.result_type(field.data.dtype, …))
+        def from_image(e, tainted):
+            for x in _ast.walk(e):
+                if isinstance(x, _ast.Attribute) and x.attr == "dtype":
+                    r = x.value
+                    while isinstance(r, (_ast.Attribute, _ast.Subscript)):
+                        r = r.value
+                    if isinstance(r, _ast.Name) and (r.id in params or r.id in tainted):
+                        return True
+                if isinstance(x, _ast.Name) and x.id in tainted:
+                    return True
+            return False
+
+        tainted = set()
+        for _ in range(3):
+            for s_ in _ast.walk(fnode):
+                if isinstance(s_, _ast.Assign) and len(s_.targets) == 1 and isinstance(s_.targets[0], _ast.Name) and s_.targets[0].id not in tainted:
+                    v_ = s_.value
+                    if any(isinstance(x, _ast.Attribute) and x.attr == "dtype" for x in _ast.walk(v_)) and from_image(v_, tainted):
+                        tainted.add(s_.targets[0].id)
+        for c in _ast.walk(fnode):
+            if isinstance(c, _ast.Call):
+                cand = []
+                if isinstance(c.func, _ast.Attribute) and c.func.attr == "astype" and c.args:
+                    cand.append(c.args[0])
+                d_ = kwarg(c, "dtype")
+                if d_ is not None:
+                    cand.append(d_)
+                if any(from_image(e, tainted) for e in cand):
+                    out.append(c)
         return out
 
-    fx = _ast.parse("def f(field):\n    acc = np.zeros_like(field.data)\n    ok = np.zeros_like(field.data, dtype=float)\n    return acc, ok\n").body[0]
-    if len(sites(fx, {"field"})) != 1:
+    fx = _ast.parse("def f(field):\n    acc = np.zeros_like(field.data)\n    ok = np.zeros_like(field.data, dtype=float)\n    dt = np.result_type(field.data.dtype, np.float32)\n    return acc, ok.astype(dt)\n").body[0]
+    if len(sites(fx, {"field"})) != 2:
         from ..model import AnalysisError
 
         raise AnalysisError("DTYPE fixture was not flagged exactly once — rule is blind", rule)
